@@ -39,6 +39,12 @@ CHECKS = {
             "Exploration: generated data classes over the Field/Options product with inputs using names, aliases, case variants, "
             "duplicates and extra keys; outcomes of the two strategies compared (equal values; same failure kind via the collected error sets).",
             "Trusted: vf/oracle.py equal/plain; the notion of 'same kind' = (exception class, item) membership in the other strategy's collected set.", "3/C06"),
+    "C12": ("differential/metamorphic property-based testing (Hypothesis + exhaustive pair table): the same (source, target) under the 4 flag combinations; subset+equality relation and independent no-loss / group predicates",
+            "hypothesis",
+            "Exploration: a fixed table of ~170 representative sources x 29 targets x 2 entries x 4 flag sets enumerated completely on every run, "
+            "plus generated hostile and type-directed sources; checks that flags only restrict (equal value, same type) and that every accepted "
+            "conversion under no_data_loss / no_explicit_cast keeps the documented promises.",
+            "Trusted: vf/checks/c12.py predicates (Fraction arithmetic, strict UTF-8 decoding, ISO date/time parsing, group table from the docs); silent zones listed in ASSUMPTIONS.", "3/C12"),
     "C16": ("model-based stateful PBT (Hypothesis RuleBasedStateMachine) of register/use histories against a cache-free reference model",
             "hypothesis",
             "Exploration: random histories of registrations and conversions over a 6-class hierarchy on three registries "
